@@ -56,6 +56,12 @@ impl Tool {
         (0..CKPT_FILES).map(|i| format!("{}{tok}_{i}.bin", if rewind { "rw" } else { "ck" })).collect()
     }
     /// the input string that makes a run execute this tool / checkpoint command
+    fn envelope_timed(&self, tok: &str, trace: &str, ckpt_id: Option<&str>, timeout_ms: Option<u64>) -> String {
+        match (self, timeout_ms) {
+            (Tool::CkptCreate | Tool::CkptRewind, _) | (_, None) => self.envelope(tok, trace, ckpt_id),
+            (_, Some(t)) => json!({"tool": self.name(), "args": self.args(tok, trace), "timeout_ms": t}).to_string(),
+        }
+    }
     fn envelope(&self, tok: &str, trace: &str, ckpt_id: Option<&str>) -> String {
         match self {
             Tool::CkptCreate => json!({"checkpoint": {"action": "create", "label": format!("label {tok}"), "files": Tool::ckpt_files(tok, false)}}).to_string(),
@@ -115,6 +121,14 @@ pub struct Scenario {
     /// first start a gated shell mutation and require a read-only tool run to finish while it is held
     pub probe: Option<Tool>,
     pub workers: u8,
+    /// (actor index, timeout_ms): the tool envelope of that actor carries a timeout shorter than
+    /// the tool's work — the call fails with "timeout" while the work it started may still be going
+    #[serde(default)]
+    pub timeouts: Vec<(usize, u64)>,
+    /// slow disk for the in-process mutations (write, apply_patch) of actors with a timeout: the
+    /// first file-system effect on their target is delayed by this many ms
+    #[serde(default)]
+    pub slow_disk_ms: u64,
 }
 
 pub struct C11;
@@ -170,13 +184,33 @@ pub fn generate(run_seed: u64, _tier: Tier) -> Scenario {
             actors.push((delay, a));
         }
     }
-    Scenario { actors, plan: Plan { rules, random }, probe, workers }
+    // own sub-stream: in 1 of 3 scenarios one or two envelope actors with a mutating tool get a
+    // timeout shorter than their work (shell: 1-12 ms against 5-45 ms of work; write / apply_patch:
+    // 0-2 ms against a disk that takes 10-40 ms for the first effect)
+    let mut trng = Rng::derive(run_seed, "c11:timeouts");
+    let mut timeouts = Vec::new();
+    let mut slow_disk_ms = 0;
+    if trng.chance(1, 3) {
+        let cands: Vec<usize> = actors.iter().enumerate().filter(|(_, (_, a))| matches!(a, Actor::ToolPost { tool } | Actor::SessionTool { tool } if tool.yields_side_effects())).map(|(i, _)| i).collect();
+        for &i in cands.iter().take(2) {
+            if trng.chance(2, 3) {
+                let shell = matches!(&actors[i].1, Actor::ToolPost { tool: Tool::Bash { .. } } | Actor::SessionTool { tool: Tool::Bash { .. } });
+                timeouts.push((i, if shell { trng.range(1, 12) } else { trng.below(3) }));
+            }
+        }
+        if !timeouts.is_empty() {
+            slow_disk_ms = trng.range(10, 40);
+        }
+    }
+    Scenario { actors, plan: Plan { rules, random }, probe, workers, timeouts, slow_disk_ms }
 }
 
 // ---------------------------------------------------------------------------------------------
 // seam observer: in-process workspace mutations with wall-clock stamps
 
 static FS_LOG: Mutex<Vec<(f64, String)>> = Mutex::new(Vec::new());
+/// (file-name needles of the timed in-process mutations, delay in ms, needles already delayed)
+static SLOW: Mutex<(Vec<String>, u64, Vec<String>)> = Mutex::new((Vec::new(), 0, Vec::new()));
 
 fn now_s() -> f64 {
     SystemTime::now().duration_since(UNIX_EPOCH).map(|d| d.as_secs_f64()).unwrap_or(0.0)
@@ -184,6 +218,19 @@ fn now_s() -> f64 {
 
 fn observe(_actor: i32, e: &Effect) -> Decision {
     if e.kind.is_mutating() {
+        // slow disk: the first effect on the target of a timed in-process mutation is recorded at
+        // its real time and then delayed (the calling thread is a blocking-pool thread)
+        let mut delay = 0;
+        if let Ok(mut g) = SLOW.lock() {
+            if g.1 > 0 {
+                if let Some(n) = g.0.iter().find(|n| e.path.contains(n.as_str())).cloned() {
+                    if !g.2.contains(&n) {
+                        g.2.push(n);
+                        delay = g.1;
+                    }
+                }
+            }
+        }
         let t = now_s();
         if let Ok(mut g) = FS_LOG.lock() {
             if g.len() < 200_000 {
@@ -192,6 +239,9 @@ fn observe(_actor: i32, e: &Effect) -> Decision {
                     g.push((t, p2.clone()));
                 }
             }
+        }
+        if delay > 0 {
+            std::thread::sleep(Duration::from_millis(delay));
         }
     }
     Decision::Proceed
@@ -287,6 +337,19 @@ pub fn execute(sc: &Scenario, env: &Env) -> (Outcome, RunStats) {
     let _ = std::fs::write(engine.ws.join("seed.txt"), "seed line\nsecond\n");
     let _ = std::fs::write(&trace, "");
     FS_LOG.lock().unwrap().clear();
+    {
+        let mut needles = Vec::new();
+        for (i, _) in &sc.timeouts {
+            if let (Some(tok), Some((_, a))) = (actor_tokens.get(*i).and_then(|t| t.first()), sc.actors.get(*i)) {
+                match a {
+                    Actor::ToolPost { tool: Tool::Write } | Actor::SessionTool { tool: Tool::Write } => needles.push(format!("w{tok}.txt")),
+                    Actor::ToolPost { tool: Tool::Patch } | Actor::SessionTool { tool: Tool::Patch } => needles.push(format!("p{tok}.txt")),
+                    _ => {}
+                }
+            }
+        }
+        *SLOW.lock().unwrap() = (needles, sc.slow_disk_ms, Vec::new());
+    }
     seam::set_mode(seam::MODE_OFF);
     seam::set_root_prefix(engine.ws.to_str().unwrap_or(""));
     seam::set_report_reads(false);
@@ -418,7 +481,11 @@ fn run(sc: &Scenario, engine: &Engine, trace: &Path, gate: &Path, actor_tokens: 
             match &sc.actors[i].1 {
                 Actor::ToolPost { tool } => {
                     let tok = &actor_tokens[i][0];
-                    let content = tool.envelope(tok, &trace_s, None);
+                    let timeout = sc.timeouts.iter().find(|(a, _)| *a == i).map(|x| x.1);
+                    if timeout.is_some() {
+                        stats.bump(&format!("fault:tool_timeout_shorter_than_work:{}", tool.name()), 1);
+                    }
+                    let content = tool.envelope_timed(tok, &trace_s, None, timeout);
                     let (st, v) = engine.call_json("POST", &format!("/threads/{tid}/messages"), Some(json!({"content": content})))?;
                     if st != 202 {
                         return Err(format!("post: {st}"));
@@ -446,7 +513,12 @@ fn run(sc: &Scenario, engine: &Engine, trace: &Path, gate: &Path, actor_tokens: 
                             (v["session_id"].as_str().unwrap_or("").to_string(), None)
                         }
                     };
-                    let (st, _) = engine.call("POST", &format!("/sessions/{sid}/input"), Some(json!({"input": tool.envelope(tok, &trace_s, ckpt.as_deref())})))?;
+                    let timeout = sc.timeouts.iter().find(|(a, _)| *a == i).map(|x| x.1);
+                    if timeout.is_some() {
+                        stats.bump(&format!("fault:tool_timeout_shorter_than_work:{}", tool.name()), 1);
+                    }
+                    let input = tool.envelope_timed(tok, &trace_s, ckpt.as_deref(), timeout);
+                    let (st, _) = engine.call("POST", &format!("/sessions/{sid}/input"), Some(json!({"input": input})))?;
                     if st != 202 {
                         return Err(format!("input: {st}"));
                     }
@@ -499,6 +571,20 @@ fn run(sc: &Scenario, engine: &Engine, trace: &Path, gate: &Path, actor_tokens: 
         return Err("actors did not finish within 60 s".into());
     }
     engine.settle(5);
+    if !sc.timeouts.is_empty() {
+        // work a timed-out call started may outlive the call: give a shell command time to reach its
+        // end marker (it is gone for good when the tool runner killed it) and a delayed write time
+        // to land
+        let timed: Vec<(String, u64)> = sc.timeouts.iter().filter_map(|(i, _)| match sc.actors.get(*i).map(|a| &a.1) {
+            Some(Actor::ToolPost { tool: Tool::Bash { work_ms, .. } }) | Some(Actor::SessionTool { tool: Tool::Bash { work_ms, .. } }) => actor_tokens.get(*i).and_then(|t| t.first()).map(|t| (t.clone(), *work_ms)),
+            _ => None,
+        }).collect();
+        let longest = timed.iter().map(|x| x.1).max().unwrap_or(0).max(sc.slow_disk_ms);
+        drive(engine, Duration::from_millis(longest + 150), || {
+            let tr = read_trace(trace);
+            !timed.is_empty() && timed.iter().all(|(tok, _)| tr.iter().any(|(k, t, _)| *k == 'E' && t == tok))
+        });
+    }
     let truth = crate::model::parse_truth_file(&log_path).map_err(|e| format!("truth: {}", e.reason))?;
 
     // --- executions and their real intervals
@@ -667,8 +753,14 @@ impl Check for C11 {
             for i in (0..sc.actors.len()).rev() {
                 let mut c = sc.clone();
                 c.actors.remove(i);
+                c.timeouts = c.timeouts.iter().filter(|(a, _)| *a != i).map(|(a, t)| (if *a > i { *a - 1 } else { *a }, *t)).collect();
                 out.push(c);
             }
+        }
+        for k in 0..sc.timeouts.len() {
+            let mut c = sc.clone();
+            c.timeouts.remove(k);
+            out.push(c);
         }
         if sc.probe.is_some() {
             let mut c = sc.clone();
